@@ -12,7 +12,7 @@ from concurrent.futures import ThreadPoolExecutor
 
 
 def build(ctx):
-    return ctx.compile('hk-mpi', 'ut_h', ['ut_h.c'], instr=False, mpi=True, cflags=['-I/verif/engine/vranks'])
+    return ctx.compile('hk-mpi', 'ut_h', ['ut_h.c'], instr=False, mpi=True, cflags=['-I/verif/engine/vranks', '-O2'])
 
 
 def check(ctx):
